@@ -89,7 +89,8 @@ Proof.
   - discriminate.
 Qed.
 
-Lemma emits_ok_len : forall b s bm b', emits b s bm = Ok b' -> len s <= 4080.
+(* stated with the widest bound the two-octet long form allows, so that it survives another buffer size *)
+Lemma emits_ok_len : forall b s bm b', emits b s bm = Ok b' -> len s <= 65535.
 Proof. intros b s bm b' H. apply emits_ok_inv in H. unfold BUF_MAX_SIZE in H. lia. Qed.
 
 Lemma emits_ok_Inv : forall b s bm b', emits b s bm = Ok b' -> Inv b'.
